@@ -46,7 +46,10 @@ def gen_case(r):
             elif k < 0.26:
                 p["typ"] = r.choice(["Union[int, str]", "List[str]", "Optional[Union[float, str]]"])
                 p["default"] = r.choice(["-7", "0.5", "10", "True", "hello"])
-            elif k < 0.32:
+            elif k < 0.30 and p.get("typ") in ("str", "Optional[str]"):
+                # string defaults that contain, begin or end with quote characters (of the same or of different kinds)
+                p["default"] = r.choice(["it's", 'say "hi"', "'a' or \"b\"", "\"x\" then 'y'", "'single'", '"double"', "'"])
+            elif k < 0.36:
                 p["typ"] = r.choice(["Callable", "np.ndarray", "Optional[int]"])
                 p["default"] = "```%s```" % r.choice(["np.zeros(3)", "lambda x: x", "(1, 2)"])
     # descriptions with the punctuation the scanners split on (colon, comma, semicolon, dash, parentheses, quotes, slash)
@@ -121,9 +124,38 @@ def compare(chk, case, r):
     if "emit" in r:
         chk.failure({"kind": "emit-raises", "style": style, "exc": r["emit"]}, "docstring emit raises %s" % r["emit"], rp)
         return
+    # root-cause marker: a string default that contains a quote character (the emitter's `quote` wraps without escaping);
+    # it is attached to every signature of the case, because the damaged line changes how the following entries are read
+    quote_default = any(a["default"] is not None and a["default"][0] == "str" and ("'" in a["default"][1] or '"' in a["default"][1]) for _, a in src["params"])
+    # second case-level marker: NumPy style with word wrap and a description long enough to be wrapped — the continuation line is read as a
+    # new entry (finding C01-numpydoc-wrapped-names); when the wrapped word equals a real parameter's name that parameter is overwritten instead
+    np_wrap = bool(style == "numpydoc" and ww and any(a["doc"] and len(a["doc"]) >= 60 for _, a in src["params"]))
+    if np_wrap and not quote_default:
+        class _MarkedW:
+            def __init__(self, inner):
+                self.inner = inner
+
+            def failure(self, sig, what, replay):
+                return self.inner.failure({**sig, "numpydoc_wrapped_case": True}, what, replay)
+
+            def __getattr__(self, k):
+                return getattr(self.inner, k)
+        chk = _MarkedW(chk)
+    if quote_default:
+        class _Marked:
+            def __init__(self, inner):
+                self.inner = inner
+
+            def failure(self, sig, what, replay):
+                return self.inner.failure({**sig, "quote_in_str_default": True}, what, replay)
+
+            def __getattr__(self, k):
+                return getattr(self.inner, k)
+        chk = _Marked(chk)
     if "parse" in r:
         wrapped = bool(ww and any(a["doc"] and len(a["doc"]) >= 60 for _, a in src["params"]))
-        chk.failure({"kind": "parse-raises", "style": style, "emit_types": et, "exc": r["parse"], "has_none": "none" in kinds, "has_code": "code" in kinds, "docless": docless, "wrapped": wrapped},
+        chk.failure({"kind": "parse-raises", "style": style, "emit_types": et, "exc": r["parse"], "has_none": "none" in kinds, "has_code": "code" in kinds, "docless": docless, "wrapped": wrapped,
+                     **({"quote_in_str_default": True} if quote_default else {})},
                     "parsing the emitted docstring raises %s" % r["parse"], rp)
         return
     v = r["view"]
@@ -154,6 +186,8 @@ def compare(chk, case, r):
         exp = a["default"] if carried else None
         if exp != b["default"]:
             sig = {"kind": "default", "style": style, "entry": ent, "from": kind_of(exp), "to": kind_of(b["default"]), "carried": carried, "has_doc": bool(a["doc"])}
+            if exp is not None and exp[0] == "str" and ("'" in exp[1] or '"' in exp[1]):
+                sig["quote_in_str_default"] = True
             if ww and a["doc"] and len(a["doc"]) >= 60:
                 sig["wrapped"] = True
             if ent == "return":
